@@ -414,6 +414,8 @@ class dir_archive(archive):
         return
     __setitem__.__doc__ = dict.__setitem__.__doc__
     def clear(self):
+        for _dir in self._lsdir(): # entry by entry, each in one step
+            self._rmdir(os.path.basename(_dir)[len(PREFIX):])
         rmtree(self.__state__['id'], self=False, ignore_errors=True)
         return
     clear.__doc__ = dict.clear.__doc__
@@ -530,7 +532,13 @@ class dir_archive(archive):
 
     def _rmdir(self, key):
         "remove results subdirectory corresponding to given key"
-        rmtree(self._getdir(key), self=True, ignore_errors=True)
+        _dir = self._getdir(key)
+        # take the entry out of the listing in one step, then delete it:
+        # a half-deleted entry is never visible to a reader (or after a crash)
+        _tmp = self._getdir(TEMP+hash(random(), 'md5'))
+        try: os.rename(_dir, _tmp)
+        except OSError: _tmp = _dir
+        rmtree(_tmp, self=True, ignore_errors=True)
         return
     def _lsdir(self):
         "get a list of subdirectories in the root directory"
